@@ -9,6 +9,7 @@ CONSTANTS
   MaxDepth = 3
   LeafKind = "blobs"
   WithSemi = FALSE
+  ZoneNulls = TRUE
   Radii = {2}
   Margin = 1
   ProbeOdd = FALSE
